@@ -407,8 +407,27 @@ fn base_setup() -> Vec<FStep> {
         FStep::CloseFile,
         FStep::CreateFile("dir1/f2 long name number two".into()),
         FStep::CloseFile,
-        FStep::Unmount,
     ]
+}
+
+/// directories whose last cluster is exactly full ("fulldir") or has one free slot left ("almostdir"): the next
+/// entry makes the directory grow (allocation + zeroing of a new directory cluster), for "almostdir" in the middle
+/// of an entry's slot run
+fn full_dir_setup(vol: &VolCfg) -> Vec<FStep> {
+    let slots = (vol.cluster_size() / 32) as usize;
+    let mut v = Vec::new();
+    if slots > 130 {
+        return v;
+    }
+    for (dir, spare) in [("dir2/fulldir", 0usize), ("dir2/almostdir", 1usize)] {
+        v.push(FStep::CreateDir(dir.into()));
+        // "." and ".." take two slots; upper-case 8.3 names take exactly one slot each
+        for i in 0..slots - 2 - spare {
+            v.push(FStep::CreateFile(format!("{}/F{:03}", dir, i)));
+            v.push(FStep::CloseFile);
+        }
+    }
+    v
 }
 
 /// the representative operations (each a target run on a freshly mounted populated volume)
@@ -440,6 +459,15 @@ pub fn targets() -> Vec<(&'static str, Vec<FStep>, Vec<FStep>)> {
         ("unmount_after_change", vec![FStep::Mount, FStep::OpenFile("empty.txt".into()), FStep::Write(600), FStep::CloseFile, FStep::Stats], vec![FStep::Unmount]),
         ("create_existing", m(), vec![FStep::CreateFile("dir1/f1".into()), FStep::Read(1)]),
         ("open_missing", m(), vec![FStep::OpenFile("dir1/sub/nothing here".into())]),
+        // directory growth: allocation and zeroing of a new directory cluster (chained directories; on FAT32 also the root)
+        ("create_in_full_dir", m(), vec![FStep::CreateFile("dir2/fulldir/G00".into())]),
+        ("create_long_in_full_dir", m(), vec![FStep::CreateFile("dir2/fulldir/a long name spanning three slots.txt".into())]),
+        ("mkdir_in_full_dir", m(), vec![FStep::CreateDir("dir2/fulldir/NEWDIR".into())]),
+        ("move_into_full_dir", m(), vec![FStep::Rename("empty.txt".into(), "dir2/fulldir/moved here with a long name.txt".into())]),
+        ("create_in_almost_full_dir", m(), vec![FStep::CreateFile("dir2/almostdir/a long name spanning three slots.txt".into())]),
+        ("move_dir_into_almost_full_dir", m(), vec![FStep::Rename("dir1/sub".into(), "dir2/almostdir/sub moved".into())]),
+        ("create_in_full_root", m(), vec![FStep::CreateFile("G00".into())]),
+        ("create_long_in_full_root", m(), vec![FStep::CreateFile("a long name in the root spanning slots.txt".into())]),
     ]
 }
 
@@ -465,16 +493,36 @@ pub fn volumes(tier: Tier) -> Vec<VolCfg> {
 pub fn populated(vol: &VolCfg) -> Result<Store, String> {
     let dev = vol::make_device(vol)?;
     let base = dev.snapshot();
-    let sc = Script { name: "populate".into(), vol: vol.clone(), setup: base_setup(), target: vec![] };
-    let devp = MemDev::new(base);
-    let clock = Clock::new(600_000_000_000);
-    let mut ex = Exec { dev: devp.handle(), clock, sess: None, recs: Vec::new() };
-    for st in &sc.setup {
-        if !ex.step(st) {
-            return Err(format!("populating {:?}: step {:?} failed: {:?}", vol, st, ex.recs.last().map(|r| (&r.what, &r.result))));
+    let mut setup = base_setup();
+    setup.extend(full_dir_setup(vol));
+    setup.push(FStep::Unmount);
+    let run_steps = |store: Store, steps: &[FStep]| -> Result<Store, String> {
+        let devp = MemDev::new(store);
+        let clock = Clock::new(600_000_000_000);
+        let mut ex = Exec { dev: devp.handle(), clock, sess: None, recs: Vec::new() };
+        for st in steps {
+            if !ex.step(st) {
+                return Err(format!("populating {:?}: step {:?} failed: {:?}", vol, st, ex.recs.last().map(|r| (&r.what, &r.result))));
+            }
         }
+        drop(ex);
+        Ok(devp.take_store())
+    };
+    let mut store = run_steps(base, &setup)?;
+    if vol.fat == 32 {
+        // pad the chained root directory with one-slot entries until its last cluster is exactly full
+        let dec = crate::refdec::decode(&store, crate::refdec::DecodeOpts::default()).map_err(|e| format!("populated volume does not decode: {}", e))?;
+        let slots = (vol.cluster_size() / 32) as usize;
+        let missing = (slots - dec.root.used_slots % slots) % slots;
+        let mut pad = vec![FStep::Mount];
+        for i in 0..missing {
+            pad.push(FStep::CreateFile(format!("R{:03}", i)));
+            pad.push(FStep::CloseFile);
+        }
+        pad.push(FStep::Unmount);
+        store = run_steps(store, &pad)?;
     }
-    Ok(devp.take_store())
+    Ok(store)
 }
 
 fn eval_fault(base: &Store, script: &Script, k: u64, n: u64) -> CaseOut {
